@@ -1,0 +1,40 @@
+//go:build verif
+// +build verif
+
+package onet
+
+// Accessors for the verification harness of property C07 (build tag "verif"):
+// sizes of the overlay's bookkeeping that peers' messages fill.
+
+// VerifPendingConfigs returns the number of stored config messages that no
+// instance has picked up yet.
+func (o *Overlay) VerifPendingConfigs() int {
+	o.pendingConfigsMut.Lock()
+	defer o.pendingConfigsMut.Unlock()
+	return len(o.pendingConfigs)
+}
+
+// VerifPendingTreeMarshals returns the number of tree descriptions waiting
+// for their roster.
+func (o *Overlay) VerifPendingTreeMarshals() int {
+	o.pendingTreeLock.Lock()
+	defer o.pendingTreeLock.Unlock()
+	n := 0
+	for _, l := range o.pendingTreeMarshal {
+		n += len(l)
+	}
+	return n
+}
+
+// VerifDoneMarks returns the number of tokens marked as finished.
+func (o *Overlay) VerifDoneMarks() int {
+	o.instancesLock.Lock()
+	defer o.instancesLock.Unlock()
+	n := 0
+	for _, d := range o.instancesInfo {
+		if d {
+			n++
+		}
+	}
+	return n
+}
